@@ -29,6 +29,27 @@ type InjectCase struct {
 	Mode string   `json:"mode"` // lib | cli-f | cli-d | cli-p
 	Runs int      `json:"runs,omitempty"`
 	Hist []string `json:"hist,omitempty"` // C07: the entry used by each run
+	// Sub: name of the directory (below the scratch directory) that holds the file
+	Sub string `json:"sub,omitempty"`
+}
+
+// genDirName: how the directory handed to the tool is called.  Names with glob metacharacters are
+// only used when no -p run is part of the case (there the directory is part of the user's own pattern).
+func genDirName(t *rapid.T, withGlobRun bool) string {
+	names := []string{"", "", "", "pb", "gen pb", "生成", "x.go", "it's", "{x}", "a,b", "-d", "pb.v2"}
+	if !withGlobRun {
+		names = append(names, "proto[v2]", "a*b", "q?", `back\slash`, "[", "[a-z]", "[!x]")
+	}
+	return rapid.SampledFrom(names).Draw(t, "dirName")
+}
+
+// workSub creates the sub-directory of the scratch directory that a case asks for.
+func workSub(dir, sub string) (string, error) {
+	if sub == "" {
+		return dir, nil
+	}
+	d := filepath.Join(dir, sub)
+	return d, os.Mkdir(d, 0o755)
 }
 
 var workSeq int
@@ -245,8 +266,12 @@ func sameDeclarations(in, out string) string {
 }
 
 func checkInject(c *InjectCase) string {
-	dir := newWorkDir()
-	defer os.RemoveAll(dir)
+	top := newWorkDir()
+	defer os.RemoveAll(top)
+	dir, err := workSub(top, c.Sub)
+	if err != nil {
+		return "harness: " + err.Error()
+	}
 	in, spans := c.File.Render()
 	path := filepath.Join(dir, c.File.Name)
 	if err := os.WriteFile(path, []byte(in), 0o644); err != nil {
@@ -272,6 +297,7 @@ func genInjectCase(t *rapid.T) *InjectCase {
 	if haveCLI() && rapid.IntRange(0, 9).Draw(t, "useCLI") == 0 {
 		c.Mode = rapid.SampledFrom([]string{"cli-f", "cli-d", "cli-p"}).Draw(t, "cliMode")
 	}
+	c.Sub = genDirName(t, c.Mode == "cli-p")
 	return c
 }
 
@@ -281,6 +307,9 @@ func TestC06(t *testing.T) {
 		n, ov, na := c.File.Annotated()
 		ev.Class(fmt.Sprintf("annotated-fields=%s", bucket(n)))
 		ev.Class("mode=" + c.Mode)
+		if c.Sub != "" {
+			ev.Class("directory-name=" + c.Sub)
+		}
 		if ov {
 			ev.Class("overrides-existing-key")
 		}
